@@ -29,8 +29,18 @@ func init() {
 			if err = json.Unmarshal(doc, &b); err == nil {
 				out, err = json.Marshal(b)
 			}
-		} else {
+		} else if in.List[0].I() == 1 {
 			var b abi.ExtOutMsgBody
+			if err = json.Unmarshal(doc, &b); err == nil {
+				out, err = json.Marshal(b)
+			}
+		} else if in.List[0].I() == 2 {
+			var b abi.JettonPayload
+			if err = json.Unmarshal(doc, &b); err == nil {
+				out, err = json.Marshal(b)
+			}
+		} else {
+			var b abi.NFTPayload
 			if err = json.Unmarshal(doc, &b); err == nil {
 				out, err = json.Marshal(b)
 			}
